@@ -2,14 +2,14 @@ SPECIFICATION Spec
 CONSTANTS
   MaxH = 2
   MaxR = 1
-  NN0 = 2
-  T100 = 1000
+  NN0 = 3
+  T100 = 670
   Facts = {"A", "B"}
   MaxOps = 2
   StartAll = TRUE
-  StartSuf = {TRUE}
+  StartSuf = {TRUE, FALSE}
   EvpAny = FALSE
-  WithSetLast = FALSE
+  WithSetLast = TRUE
   Guard = "before"
 VIEW View
 INVARIANTS TypeOK
